@@ -63,6 +63,16 @@ func c11Overlap(c *core.Ctx) {
 			}
 		}
 		c.Check(R2, keyf("%s/%s.CompareAndSwap(nil,ctx)", sp.fn, strings.SplitN(sp.field, ".", 2)[1]), u.Pos(), cas != nil, "the slot is tested and claimed in one atomic step")
+		if cas != nil {
+			// the overlap test comes first: no other answer (413, 400 invalid content …) can be given to an overlapping request
+			first := true
+			for _, cl := range u.Calls() {
+				if (cl.Key == "types.(*HttpContext).Write" || cl.Name == "SetStatusCode" || cl.Key == "io.WriteString") && !g.Dominates(cas.Loc, cl.Loc) {
+					first = false
+				}
+			}
+			c.Check(R1, sp.fn+"/overlap-test-precedes-every-answer", cas.Pos(), first, "a second request of the same kind is always answered as an overlap (400 + transport error), whatever else is wrong with it")
+		}
 		failed := claimGuard(sp.field, false)
 		var onErr, status, write *core.Call
 		for _, cl := range u.Calls() {
